@@ -280,13 +280,18 @@ impl TyGen {
                 // code points whose LOW OCTET looks like a legal character
                 '\u{100}', '\u{141}', '\u{130}', '\u{2041}', '\u{1f600}', '\u{10041}', '\u{220}',
             ];
-            let cs = match what {
-                "ia5" => asn1rs::model::asn::Charset::Ia5,
-                "num" => asn1rs::model::asn::Charset::Numeric,
-                "print" => asn1rs::model::asn::Charset::Printable,
-                _ => asn1rs::model::asn::Charset::Visible,
+            // legality decided HERE (X.680 41, tables written out), never by the crate's own
+            // `Charset::is_valid`: a defect there must not be able to hide its own witnesses
+            let legal = |c: char| -> bool {
+                let cp = c as u32;
+                match what {
+                    "ia5" => cp <= 127,
+                    "num" => c == ' ' || c.is_ascii_digit(),
+                    "print" => c.is_ascii_alphanumeric() || " '()+,-./:=?".contains(c),
+                    _ => (32..=126).contains(&cp),
+                }
             };
-            let cands: Vec<char> = bad.iter().copied().filter(|c| !cs.is_valid(*c)).collect();
+            let cands: Vec<char> = bad.iter().copied().filter(|c| !legal(*c)).collect();
             let c = cands[self.rng.below(cands.len() as u64) as usize];
             let pos = match self.rng.below(3) {
                 0 => 0,
